@@ -736,7 +736,7 @@ func (e *Env) evalCall(n *ast.CallExpr) Value {
 		case isString(a.T):
 			return scalar(it, app("slen", sInt, a.one()))
 		case isMap(a.T):
-			return scalar(it, app("maplen", sInt, a.one()))
+			return scalar(it, e.x.mapLen(e.st, a.T.Underlying().(*types.Map), a.one()))
 		}
 		if at, ok := a.T.Underlying().(*types.Array); ok {
 			return scalar(it, mkInt(at.Len()))
